@@ -4,6 +4,7 @@ package anytype
 // C13 (native conversions), C12 (normalisation), C19 (derived identity).
 
 import (
+	"encoding/json"
 	"fmt"
 	"math"
 	"reflect"
@@ -324,6 +325,8 @@ func runOSeq(v int, ops []oop) string {
 func c06Oracle(c *oracleCtx) {
 	rawStrings(c, "object")
 	everyStorePath(c)
+	typedNativeNils(c)
+	removalKeepsChildren(c)
 	c.rule = "operation sequences on a pool of live objects (3 pools incl. empty key, shared nested containers, duplicate keys), every object compared with a map model after every step (Get/KeyExists/TypeOf/Keys/Values/Dict/Count), exact panics; distinct = distinct sequences"
 	if c.filter != nil {
 		for id := range c.filter {
@@ -787,6 +790,32 @@ func hasContainer(v any) bool {
 // pointer was re-targeted after they were stored (the README's inner-first two-level construction) and for a
 // stored embedded base.
 func c13ExportsAreGet(c *oracleCtx) {
+	c.check("exports:non-finite-floats", true, func() string {
+		// every float64 is a float: infinities and NaN are exported as they are stored
+		inf, ninf, nan := math.Inf(1), math.Inf(-1), math.NaN()
+		l := NewList(inf, ninf, nan, NewObject("f", inf, "n", nan), NewList(ninf))
+		o := NewObject("p", inf, "m", ninf, "nan", nan, "l", NewList(inf, nan))
+		isF := func(v any, want float64) bool {
+			f, ok := v.(float64)
+			return ok && (f == want || (math.IsNaN(want) && math.IsNaN(f)))
+		}
+		n := l.NativeSlice()
+		if !isF(n[0], inf) || !isF(n[1], ninf) || !isF(n[2], nan) || !isF(n[3].(map[string]any)["f"], inf) || !isF(n[3].(map[string]any)["n"], nan) || !isF(n[4].([]any)[0], ninf) {
+			return fmt.Sprintf("NativeSlice does not hold the stored non-finite floats: %v", n)
+		}
+		d := o.NativeDict()
+		if !isF(d["p"], inf) || !isF(d["m"], ninf) || !isF(d["nan"], nan) || !isF(d["l"].([]any)[0], inf) || !isF(d["l"].([]any)[1], nan) {
+			return fmt.Sprintf("NativeDict does not hold the stored non-finite floats: %v", d)
+		}
+		if s, fs := l.Slice(), l.FloatSlice(); !isF(s[0], inf) || !isF(s[2], nan) || len(fs) != 3 || !isF(fs[1], ninf) || !isF(fs[2], nan) || !isF(o.Dict()["m"], ninf) {
+			return "Slice / FloatSlice / Dict do not hold the stored non-finite floats"
+		}
+		back := NewListFrom(n)
+		if back.Count() != 5 || !isF(back.Get(0), inf) || !isF(back.Get(2), nan) || back.TypeOf(2) != TypeFloat || !isF(back.GetObject(3).Get("n"), nan) {
+			return "NewListFrom(NativeSlice()) does not reproduce the non-finite floats"
+		}
+		return ""
+	})
 	c.check("exports:retargeted", true, func() string {
 		inner := newDObject("k", 1)
 		o := NewObject("pet", inner, "n", 1)
@@ -1016,9 +1045,9 @@ func normNative(v any) any {
 // ---------------------------------------------------------------------------
 // C12
 
-func c12Oracle(c *oracleCtx) {
-	rawStrings(c, "both")
-	everyStorePath(c)
+// typedNativeNils: nil entries of natively typed slices / maps become the nil kind like everywhere else, and the
+// resulting container is an ordinary one for every observer
+func typedNativeNils(c *oracleCtx) {
 	c.check("typed-native-nil-entries", true, func() string {
 		// nil entries of natively typed slices / maps become the nil kind, like everywhere else
 		var nilO Object
@@ -1038,6 +1067,91 @@ func c12Oracle(c *oracleCtx) {
 		}
 		return ""
 	})
+	c.check("typed-native-nil-entries:observers", true, func() string {
+		var nilO Object
+		var nilL List
+		objs := map[string]Object{"From(map[string]Object)": NewObjectFrom(map[string]Object{"n": nilO, "o": NewObject("a", 1)}), "From(map[string]List)": NewObjectFrom(map[string]List{"n": nilL, "o": NewList(1)}),
+			"Set(map[string]List)": NewObject("m", map[string]List{"n": nil, "o": NewList()}).GetObject("m"), "Add(map[string]Object)": NewList(map[string]Object{"n": nil, "o": NewObject()}).GetObject(0)}
+		for name, o := range objs {
+			bad := ""
+			if catch(func() {
+				if o.Count() != 2 || !o.KeyExists("n") || o.TypeOf("n") != TypeNil || o.Get("n") != nil || o.Keys().Count() != 2 || o.Values().Count() != 2 || len(o.Dict()) != 2 || o.Dict()["n"] != nil {
+					bad = "Count / KeyExists / TypeOf / Get / Keys / Values / Dict disagree about the nil field"
+				}
+				if !o.Contains(nil) || o.KeyOf(nil) != "n" || o.Pluck("n").TypeOf("n") != TypeNil || NewObject().Merge(o).TypeOf("n") != TypeNil || !o.Equals(o.Clone()) {
+					bad = "Contains / KeyOf / Pluck / Merge / Clone mistreat the nil field"
+				}
+				var v any
+				if json.Unmarshal([]byte(o.String()), &v) != nil || v.(map[string]any)["n"] != nil {
+					bad = "String() does not print the nil field as null"
+				}
+			}) {
+				return name + ": an operation panics on an object built from a typed native map with a nil entry"
+			}
+			if bad != "" {
+				return name + ": " + bad
+			}
+		}
+		lists := map[string]List{"From([]Object)": NewListFrom([]Object{nilO, NewObject()}), "From([]List)": NewListFrom([]List{nilL, NewList()}), "Add([]List)": NewList([]List{nil, NewList()}).GetList(0)}
+		for name, l := range lists {
+			bad := ""
+			if catch(func() {
+				if l.Count() != 2 || l.TypeOf(0) != TypeNil || l.Get(0) != nil || l.Slice()[0] != nil || !l.Contains(nil) || l.IndexOf(nil) != 0 || !l.Equals(l.Clone()) || l.String()[:5] != "[null" {
+					bad = "observers disagree about the nil element"
+				}
+			}) {
+				return name + ": an operation panics on a list built from a typed native slice with a nil entry"
+			}
+			if bad != "" {
+				return name + ": " + bad
+			}
+		}
+		return ""
+	})
+}
+
+// removalKeepsChildren: removing or overwriting a container-valued element / field (Clear, Unset, Pop, Delete, Replace,
+// overwriting Set) only drops the reference: the child container, its own children and every other holder are untouched
+func removalKeepsChildren(c *oracleCtx) {
+	type rm struct {
+		id string
+		f  func(l List, o Object)
+	}
+	ops := []rm{
+		{"Object.Clear", func(l List, o Object) { o.Clear() }}, {"Object.Unset", func(l List, o Object) { o.Unset("l", "o") }}, {"Object.Set-over", func(l List, o Object) { o.Set("l", 0, "o", nil) }},
+		{"Object.UnsetTF", func(l List, o Object) { o.UnsetTF(".l").UnsetTF(".o") }}, {"Object.SetTF-over", func(l List, o Object) { o.SetTF(".l", 1).SetTF(".o", "x") }},
+		{"List.Clear", func(l List, o Object) { l.Clear() }}, {"List.Pop", func(l List, o Object) { l.Pop(); l.Pop() }}, {"List.Delete", func(l List, o Object) { l.Delete(0, 1) }},
+		{"List.Delete1", func(l List, o Object) { l.Delete(1).Delete(0) }}, {"List.Replace", func(l List, o Object) { l.Replace(0, 0).Replace(1, "x") }}, {"List.UnsetTF", func(l List, o Object) { l.UnsetTF("#1").UnsetTF("#0") }},
+		{"List.SetTF-over", func(l List, o Object) { l.SetTF("#0", 1).SetTF("#1", 2) }},
+	}
+	for _, op := range ops {
+		op := op
+		c.check("removal-keeps-children:"+op.id, true, func() string {
+			grand := NewList(3, NewObject("deep", true))
+			cl, co := NewList(1, 2, grand), NewObject("k", grand, "s", "v")
+			l, o := NewList(cl, co), NewObject("l", cl, "o", co)
+			otherL, otherO := NewList(co, cl), NewObject("same", cl, "too", co)
+			before := []string{cl.String(), co.String(), grand.String(), otherL.String(), otherO.String()}
+			op.f(l, o)
+			after := []string{cl.String(), co.String(), grand.String(), otherL.String(), otherO.String()}
+			for i := range before {
+				if before[i] != after[i] && !(i == 1 || i >= 3) { // objects print in map order: compare those by Equals below
+					return fmt.Sprintf("a container that was only dropped from its holder changed from %s to %s", before[i], after[i])
+				}
+			}
+			if cl.Count() != 3 || cl.GetList(2) != grand || co.Count() != 2 || co.GetList("k") != grand || grand.Count() != 2 || grand.GetObject(1).Count() != 1 ||
+				otherL.GetObject(0) != co || otherL.GetList(1) != cl || otherO.GetList("same") != cl || otherO.GetObject("too") != co {
+				return "a dropped child container (or a container below it) was modified, or another holder lost it"
+			}
+			return ""
+		})
+	}
+}
+
+func c12Oracle(c *oracleCtx) {
+	rawStrings(c, "both")
+	everyStorePath(c)
+	typedNativeNils(c)
 	c.rule = "values of every supported dynamic type at range boundaries through every insertion entry point; Get type, TypeOf, exactly one typed getter; unsupported types rejected without being stored"
 	type vc struct {
 		id   string
